@@ -47,3 +47,50 @@ def convolve(data, filt, mode, strides, multi_channel):
     if multi_channel:
         return out.reshape(tuple(b) + (co,) + tuple(p))
     return out.reshape(tuple(b) + tuple(p))
+
+
+def convolve_shift_add(data, filt, mode, strides, multi_channel):
+    """The same definition for operands of realistic size: one shifted, scaled copy of the
+    data per filter tap (exact for integer operands; cost = taps x data size)."""
+    D = filt.ndim - 2 * bool(multi_channel)
+    m = data.shape[-D:]
+    n = filt.shape[-D:]
+    if multi_channel:
+        b = data.shape[:-D - 1]
+        ci = data.shape[-D - 1]
+        co = filt.shape[0]
+    else:
+        b = data.shape[:-D]
+        ci = co = 1
+    B = int(np.prod(b)) if b else 1
+    dtype = np.result_type(data.dtype, filt.dtype)
+    if dtype.kind in "iu":
+        dtype = np.dtype(np.int64)
+    elif dtype.kind == "f":
+        dtype = np.dtype(np.float64)
+    else:
+        dtype = np.dtype(np.complex128)
+    d = np.ascontiguousarray(data).reshape((B, 1, ci) + tuple(m)).astype(dtype)
+    f = np.ascontiguousarray(filt).reshape((co, ci) + tuple(n)).astype(dtype)
+    L = [a + c - 1 for a, c in zip(m, n)]
+    full = np.zeros((B, co) + tuple(L), dtype)
+    for k in itertools.product(*[range(c) for c in n]):
+        sl = tuple(slice(kk, kk + a) for kk, a in zip(k, m))
+        w = f[(slice(None), slice(None)) + k]                        # [co, ci]
+        full[(slice(None), slice(None)) + sl] += np.sum(
+            d * w.reshape((1, co, ci) + (1,) * D), axis=2)
+    if mode == "full":
+        out = full
+    else:
+        ge = all(a >= c for a, c in zip(m, n))
+        le = all(a <= c for a, c in zip(m, n))
+        if not (ge or le):
+            raise ValueError("valid mode undefined: neither operand contains the other")
+        sl = tuple(slice(min(a, c) - 1, max(a, c)) for a, c in zip(m, n))
+        out = full[(slice(None), slice(None)) + sl]
+    s = strides or [1] * D
+    out = out[(slice(None), slice(None)) + tuple(slice(None, None, ss) for ss in s)]
+    p = out.shape[2:]
+    if multi_channel:
+        return out.reshape(tuple(b) + (co,) + tuple(p))
+    return out.reshape(tuple(b) + tuple(p))
